@@ -926,6 +926,10 @@ class Builtins:
             raise Unsupported("builtin method %s.%s" % (base, name))
         return m(self_ref, args, kwargs, st, k)
 
+    # ---- str (message texts are opaque) ----
+    def m_str_format(self, s_, args, kwargs, st, k):
+        return k(VStr(), st)
+
     # ---- slice ----
     def m_slice_indices(self, sl, args, kwargs, st, k):
         n = _as_int(args[0])
